@@ -197,23 +197,42 @@ ovars == <<cfg, pc, q, ans, dval, exit>>
 MatMul(A, B) == [r \in 1..3 |-> [c \in 1..3 |-> A[r][1] * B[1][c] + A[r][2] * B[2][c] + A[r][3] * B[3][c]]]
 SameMat(A, B) == \A r \in 1..3, c \in 1..3 : A[r][c] = B[r][c]
 ComposeT == [qr \in (1..NR) \X (1..NR) |-> CHOOSE g \in 1..NR : SameMat(Rots[g], MatMul(Rots[qr[1]], Rots[qr[2]]))]
-MkCfg(id, proc, api, a, qa, la, pa, b, qb, lb, pb, poly) ==
+(* Generic frame (containment configurations): g = 1 turns the WHOLE configuration (container and *)
+(* object, positions and orientations) by the rational yaw with cos = 3/5, sin = 4/5 about the    *)
+(* world z axis.  Overlap, containment and distances are invariant under this common rigid motion, *)
+(* so the oracle and every radius / ball quantity are computed in the lattice frame; only what    *)
+(* the code measures on WORLD axis-aligned bounding boxes changes (the objects' world boxes are   *)
+(* then noticeably larger than the solids): it is computed exactly on the turned corners with     *)
+(* coordinates scaled by 5 (W5), and world points are taken back to the lattice frame scaled by   *)
+(* 25 (Back25).                                                                                   *)
+MkCfg(id, proc, api, a, qa, la, pa, b, qb, lb, pb, poly, g) ==
   [id |-> id, proc |-> proc, api |-> api, a |-> a, qa |-> qa, la |-> la, ra |-> ComposeT[<<qa, la>>], pa |-> pa,
-   b |-> b, qb |-> qb, lb |-> lb, rb |-> ComposeT[<<qb, lb>>], pb |-> pb, poly |-> poly]
+   b |-> b, qb |-> qb, lb |-> lb, rb |-> ComposeT[<<qb, lb>>], pb |-> pb, poly |-> poly, g |-> g]
+W5(v) == <<3 * v[1] - 4 * v[2], 4 * v[1] + 3 * v[2], 5 * v[3]>>
+Back25(X) == <<3 * X[1] + 4 * X[2], 3 * X[2] - 4 * X[1], 5 * X[3]>>
+AABB5(S) == LET P == {W5(c) : c \in CornersS(S)} IN
+            Box(<<SetMin({x[1] : x \in P}), SetMin({x[2] : x \in P}), SetMin({x[3] : x \in P})>>,
+                <<SetMax({x[1] : x \in P}), SetMax({x[2] : x \in P}), SetMax({x[3] : x \in P})>>)
+\* closed overlap of the world bounding boxes
+BBMeetF(g, A, B) == IF g = 0 THEN BoxMeet(BBoxS(A), BBoxS(B)) ELSE BoxMeet(AABB5(A), AABB5(B))
+\* every corner of the object's world bounding box strictly inside (a part of) R
+BBInF(g, O, R) == IF g = 0 THEN StrictInsideS(<<BBoxS(O)>>, R)
+                  ELSE \A X \in Corners(AABB5(O)) : \E j \in Idx(R) :
+                          \A i \in 1..3 : 25 * R[j].lo[i] < Back25(X)[i] /\ Back25(X)[i] < 25 * R[j].hi[i]
 
 OvInit ==
   /\ pc = "measure" /\ q = <<>> /\ ans = FALSE /\ dval = -1 /\ exit = "-"
   /\ \/ /\ Mode = "batch"
         /\ \E k \in 1..Len(Cases) :
              cfg = MkCfg(Cases[k].id, Cases[k].proc, Cases[k].api, Cases[k].a, Cases[k].qa, Cases[k].ra, Cases[k].pa,
-                         Cases[k].b, Cases[k].qb, Cases[k].rb, Cases[k].pb, Cases[k].poly)
+                         Cases[k].b, Cases[k].qb, Cases[k].rb, Cases[k].pb, Cases[k].poly, Cases[k].g)
      \/ /\ Mode = "universe"
         /\ \E u \in 1..Len(Univ) :
              \E a \in Range(Univ[u].sa), qa \in Range(Univ[u].sqa), ra \in Range(Univ[u].sra),
                 b \in Range(Univ[u].sb), qb \in Range(Univ[u].sqb), rb \in Range(Univ[u].srb),
-                dx \in Range(Univ[u].dx), dy \in Range(Univ[u].dy), dz \in Range(Univ[u].dz) :
+                dx \in Range(Univ[u].dx), dy \in Range(Univ[u].dy), dz \in Range(Univ[u].dz), g \in Range(Univ[u].sg) :
                cfg = MkCfg(0, Univ[u].proc, Univ[u].api, a, qa, ra, Univ[u].pa, b, qb, rb,
-                           AddV(Univ[u].pa, <<dx, dy, dz>>), Univ[u].poly)
+                           AddV(Univ[u].pa, <<dx, dy, dz>>), Univ[u].poly, g)
 
 \* ---- measured exact quantities -------------------------------------------------
 \* Measure computes what depends on the configuration only; Choose adds what depends on the
@@ -250,10 +269,10 @@ QContBase(c) ==
       O == World(c.b, c.rb, c.pb)
       vo == CornersS(O)
   IN [ins |-> InsideS(O, R), sins |-> StrictInsideS(O, R),
-      bbMeet |-> BoxMeet(BBoxS(R), BBoxS(O)), bbInB |-> BoxIn(BBoxS(O), BBoxS(R)),
+      bbMeet |-> BBMeetF(c.g, R, O), bbInB |-> BoxIn(BBoxS(O), BBoxS(R)),
       ovl |-> OverlapS(O, R),
       convR |-> ConvexT[c.a],
-      bbIn |-> StrictInsideS(<<BBoxS(O)>>, R),
+      bbIn |-> BBInF(c.g, O, R),
       vertsIn |-> \A v \in vo : IntPt(v, R),
       vertsInClosed |-> \A v \in vo : ClosedPt(v, R)]
 QContChoice(c, kc, kq) ==   \* kc / kq: candidate point of the object / of the region (0 = position)
@@ -280,6 +299,9 @@ QFoot(c) ==
 \* the code takes the object's position / the region's bounding-box centre as candidate point
 \* when the solid contains it, otherwise a sampled interior point (here: any part centre)
 CandChoices(s) == IF OriginInT[s] THEN {0} ELSE 1..NParts(s)
+\* in a generic frame the region's candidate is the centre of its WORLD bounding box (if the region
+\* contains it), which is no lattice point: any candidate is allowed (PASS 4 is sound for every point)
+CandChoicesR(c) == IF c.g = 1 THEN 0..NParts(c.a) ELSE CandChoices(c.a)
 
 Measure ==
   /\ pc = "measure" /\ pc' = "choose"
@@ -293,7 +315,7 @@ Choose ==
   /\ \/ /\ cfg.proc \in {"isect", "dist"}
         /\ \E ia \in 1..NParts(cfg.a), ib \in 1..NParts(cfg.b) : q' = q @@ QPairChoice(cfg, ia, ib)
      \/ /\ cfg.proc = "cont"
-        /\ \E kc \in CandChoices(cfg.b), kq \in CandChoices(cfg.a) : q' = q @@ QContChoice(cfg, kc, kq)
+        /\ \E kc \in CandChoices(cfg.b), kq \in CandChoicesR(cfg) : q' = q @@ QContChoice(cfg, kc, kq)
      \/ /\ cfg.proc = "foot" /\ q' = q
   /\ UNCHANGED <<cfg, ans, dval, exit>>
 
